@@ -14,7 +14,9 @@ CONSTANTS
     Mode = "local"
     UpgradeSend = "drop"
     UpgraderSem = "drop"
-    UpgradeRecheck = FALSE
+    Reloads = {}
+    IOFaults = FALSE
+    UpgradeRecheck = "none"
     MaxCalls = 1
     Kinds = {"auth", "update", "remove"}
     InitFiles <- MCInit1
